@@ -155,6 +155,8 @@ class Hist:
         free_s, dead_o, dead_t = self.free_sids(), self.dead_objs(), self.dead_tabs()
         if dead_o and free_s:
             c += ["NewVec"] * 3 + (["Copy"] * 2 if vecs else [])
+        if dead_o and vecs:
+            c += ["ConcatEmpty"]
         if dead_o and self.tup:
             c += ["ShareVec"] * 2
         if self.tup:
@@ -222,6 +224,17 @@ class Hist:
             v = Vector(self.tup[s])
             self.held[o] = v
             self.see(o, v)
+        elif act == "ConcatEmpty":
+            src = rnd.choice(live)
+            sv = self.obj(src)
+            if len(sv) == 0:
+                return None
+            ev["x"] = src
+            o = dead_o[0]
+            v = sv << []
+            self.held[o] = v
+            self.see(o, v)
+            del sv
         elif act == "DropTuple":
             s = rnd.choice(sorted(self.tup))
             ev["y"] = s
